@@ -666,6 +666,7 @@ static void scen_sortinv(Ctx& c, Rng& r, long k) {
 }
 
 // ------------------------------------------------------------------------------------------------ main
+std::vector<HookThread*>* volatile g_keep_hook_threads = nullptr;   // external linkage + volatile: the store must survive optimisation
 int main(int argc, char** argv) {
     Args a = standard_init(argc, argv, "c06");
     Result& R = result();
@@ -734,6 +735,9 @@ int main(int argc, char** argv) {
     watchdog_stop();
     if (mode == "sortinv") { R.stat("Q_sortinv_space", inv_space()); R.stat("Q_sortinv_full_sweeps", inv_next.load() / inv_space()); }
     R.stat("hook_delays", (long long)perturb().delays.load());
+    // vrt never frees its per-thread hook records, but the registry that points to them is a static vector that is destroyed
+    // before LeakSanitizer looks: keep them reachable from a root that has no destructor (local workaround, see report)
+    g_keep_hook_threads = new std::vector<HookThread*>(hook_threads_snapshot());
     R.write();
     return 0;
 }
